@@ -51,12 +51,20 @@ def find_def(tree: ast.AST, qualname: str):
     parts = qualname.split(".")
     cur = tree
     for p in parts:
-        found = None
-        for n in getattr(cur, "body", []):
-            if isinstance(n, (ast.FunctionDef, ast.AsyncFunctionDef, ast.ClassDef)) and n.name == p:
-                found = n
-        if found is None:
+        want_setter = p.endswith("@setter")
+        p = p.split("@")[0]
+        cands = [n for n in getattr(cur, "body", [])
+                 if isinstance(n, (ast.FunctionDef, ast.AsyncFunctionDef, ast.ClassDef)) and n.name == p]
+        if not cands:
             return None
+        found = cands[-1]
+        if len(cands) > 1:
+            # a property getter and its setter share one name: the getter unless "<name>@setter" is asked for
+            def is_setter(n):
+                return any(isinstance(d, ast.Attribute) and d.attr == "setter" for d in getattr(n, "decorator_list", []))
+            pick = [n for n in cands if is_setter(n) == want_setter]
+            if pick:
+                found = pick[-1]
         cur = found
     return cur
 
